@@ -33,6 +33,13 @@ def main():
     L.append('(nothing from /verif); it compiles, passes the 261 existing tests and fails its own demonstration. Each was re-confirmed')
     L.append('by `engine/seedverify.py` (suite with the change: all pass; demonstration: fails with / passes without) and then run')
     L.append('against the registered quick check by `engine/seedtest.py`.\n')
+    L.append('The changes named `-m4` come from a second round (session 2): one fresh sub-agent per property, told only the property')
+    L.append('text and which three ideas were already taken, so that each targets a different function. No check had to be changed for')
+    L.append('them. Two of them land on a function an earlier change of another property already touched (C17-m4 = the `reset_bit`')
+    L.append('mask of C14-m3 seen through `bitset::reset(pos)`; C13-m4 = the `gcem::trunc` guard of C16-m3 seen as a constant-evaluation /')
+    L.append('run-time disagreement): they are kept because they exercise a different check than the earlier one did. The round-2 runs')
+    L.append('shared the 16 cores between up to three checks, so some of their queries timed out (`CHECK-ERROR timeout` lines in')
+    L.append('`seeded/RESULTS.json`); a timeout is never counted as a detection - only a `VIOLATION` line with exit 1 is.\n')
     L.append('| seeded change | property | what it breaks / what it needs to manifest | quick check result | caught by (first violation) |')
     L.append('|---|---|---|---|---|')
     ids = sorted(d for d in os.listdir(sd) if os.path.isdir(os.path.join(sd, d))) if os.path.isdir(sd) else []
